@@ -53,6 +53,17 @@ INVALID = ('(a', '[a', '(b', 'a\\(')
 
 
 def model_glob(M, loc, pat, negate, cmds, nested=False):
+    # the per-line mark set has room for seven levels: an eighth nested global is refused (documented limit, like the 64 levels of :so / @r)
+    M.gdepth = getattr(M, 'gdepth', 0) + 1
+    try:
+        if M.gdepth > 7:
+            raise mx.Reject('nested too deeply')
+        return model_glob_(M, loc, pat, negate, cmds, nested)
+    finally:
+        M.gdepth -= 1
+
+
+def model_glob_(M, loc, pat, negate, cmds, nested=False):
     if not M.n():
         raise mx.Reject('empty')
     if pat in INVALID:
@@ -165,7 +176,7 @@ def run_case(args):
     if not big and R.random() < 0.04:
         # globals nested up to the seventh level (the deepest the per-line mark set has a bit for), the innermost with a range of its own
         inner = {'cmd': R.choice(['g', 'v']), 'loc': R.choice(['2,$', '1,$', '.,$', '1,.', '%d,%d' % (a, b)]), 'pat': R.choice(PATS), 'list': [{'cmd': 's', 'loc': '', 'pat': '$', 'rep': R.choice('!+#'), 'g': False}]}
-        for _ in range(R.choice([1, 3, 4, 5, 5])):
+        for _ in range(R.choice([1, 3, 4, 5, 5, 6, 7, 8])):      # (with the innermost and the top-level one: 3 to 10 levels; from the eighth on, refused)
             inner = {'cmd': 'g', 'loc': '', 'pat': R.choice(['.', '.', '^', 'a*', 'x*']), 'list': [inner]}
         cmds = [inner]
         n = min(n, 5)
@@ -311,7 +322,7 @@ def run(tier, V):
         elif k == 'violation':
             V.violation(key, what, wit)
     cov = {'evaluations': n, 'distinct_nontrivial': stats.get('ok', 0), 'outcomes': stats, 'model_executions': nex,
-           'rule': ('%d scripts: :g / :v with patterns x ranges x command lists from {d, s, y|pu, pu, a/i/c with text, -1d, +1d, +1s, .,+1d, -1,.d, s|+1d, -1s, nested g/v with and without a range of their own (up to seven levels deep), $d and $-1,$d (lines below a partial range), k|s} over buffers of 1-9 lines, 15%% after an earlier global that inserted lines and was stopped by a failing command, 8%% after an earlier global whose command list left for another buffer; '
+           'rule': ('%d scripts: :g / :v with patterns x ranges x command lists from {d, s, y|pu, pu, a/i/c with text, -1d, +1d, +1s, .,+1d, -1,.d, s|+1d, -1s, nested g/v with and without a range of their own (up to ten levels deep: seven are served, the eighth is refused), $d and $-1,$d (lines below a partial range), k|s} over buffers of 1-9 lines, 15%% after an earlier global that inserted lines and was stopped by a failing command, 8%% after an earlier global whose command list left for another buffer; '
                     'the resulting text (which reveals the set, order and number of executions), the current line and the text after ONE undo are compared with the identity-based model / the text observed before the global.  '
                     'non-trivial = the global changed the buffer.' % n),
            'samples': [{'lines': ['a', 'x a', 'b'], 'command': 'g/a/s/$/!/|+1d'}]}
